@@ -568,15 +568,17 @@ impl World {
 
     /// after any step: blocked clients may have been released by it
     fn settle_others(&mut self) {
-        let rel = self.collect_releases();
+        let rel = self.collect_releases(false);
         for (c, kind) in rel {
             self.record_release(c, kind);
         }
     }
 
     /// wait for the releases this step must have caused; returns (client, blocking call) pairs
-    fn collect_releases(&mut self) -> Vec<(usize, &'static str)> {
+    fn collect_releases(&mut self, popped: bool) -> Vec<(usize, &'static str)> {
         let mut out = Vec::new();
+        // a pop from the full async buffer lets exactly one blocked sender in
+        let mut popped = popped;
         for c in 0..self.clients.len() {
             let kind = match (self.clients[c].cur.is_some(), self.clients[c].blocked) {
                 (true, Some(k)) => k,
@@ -587,11 +589,14 @@ impl World {
                     "cls_stop" => self.proc_exited,
                     "pol_stop" => self.pol_exited,
                     "wait" => self.wait_done_pending > 0,
-                    "rem_send" => self.proc_exited || self.snapshot().buf_len < self.cfg.buf_cap,
+                    "rem_send" => popped || self.proc_exited || self.snapshot().buf_len < self.cfg.buf_cap,
                     _ => false,
                 };
                 if !expect_release {
                     continue;
+                }
+                if kind == "rem_send" {
+                    popped = false;
                 }
                 let long = kind != "wait";
                 let released = self.clients[c].actor.wait_unblocked(if long { Duration::from_secs(20) } else { Duration::from_millis(60) });
@@ -769,7 +774,8 @@ impl World {
         // sender's step next
         let rel = if racy {
             ev["racy"] = json!(true);
-            let mut r = self.collect_releases();
+            let popped = from == "start" && matches!(name.as_str(), "PNewAdd" | "PUpd" | "PDel" | "PWait") || name == "PCleanItem";
+            let mut r = self.collect_releases(popped);
             r.sort_by_key(|(_, k)| if *k == "rem_send" { 0 } else { 1 });
             r
         } else {
@@ -879,6 +885,10 @@ impl World {
                         progressed = self.events > before;
                     }
                 }
+            }
+            if !self.pol_exited && self.snapshot().pol_queue_len > 0 {
+                self.step_pol(Branch::Insert);
+                progressed = true;
             }
             if !self.pol_exited && self.clients.iter().any(|c| c.cur.is_some() && c.actor.state() == St::Blocked("pol_stop")) {
                 self.step_pol(Branch::Stop);
@@ -1037,6 +1047,9 @@ pub struct Profile {
     pub p_advance: f64,
     pub p_tick: f64,
     pub p_bump: f64,
+    pub p_pol: f64,
+    pub buffer_items: Vec<usize>,
+    pub num_counters: Vec<usize>,
     pub max_cost: (i64, i64),
     pub buf_cap: (usize, usize),
     pub costs: Vec<i64>,
@@ -1102,8 +1115,8 @@ pub fn random_walk(rng: &mut StdRng, p: &Profile, t: Trace) -> (Trace, usize, Ve
         flavor: p.flavor.to_string(),
         buf_cap: rng.gen_range(p.buf_cap.0..=p.buf_cap.1),
         max_cost: rng.gen_range(p.max_cost.0..=p.max_cost.1),
-        num_counters: 1000,
-        buffer_items: 64,
+        num_counters: p.num_counters[rng.gen_range(0..p.num_counters.len())],
+        buffer_items: p.buffer_items[rng.gen_range(0..p.buffer_items.len())],
         ignore_internal: p.ignore_internal,
         coster: p.coster,
         validator: p.validator,
@@ -1147,6 +1160,9 @@ pub fn random_walk(rng: &mut StdRng, p: &Profile, t: Trace) -> (Trace, usize, Ve
                 }
             }
             quiesce(&mut w);
+            while !w.pol_exited() && w.snapshot().pol_queue_len > 0 && rng.gen_bool(p.p_pol) {
+                w.step_pol(Branch::Insert);
+            }
             if rng.gen_bool(p.p_tick) && !w.proc_exited() {
                 w.step_proc(Branch::Tick);
                 quiesce(&mut w);
@@ -1215,6 +1231,9 @@ pub fn profile(name: &str, flavor: &'static str) -> Profile {
         p_advance: 0.0,
         p_tick: 0.0,
         p_bump: 0.08,
+        p_pol: 0.3,
+        buffer_items: vec![64],
+        num_counters: vec![1000],
         max_cost: (4, 12),
         buf_cap: (2, 4),
         costs: vec![0, 1, 1, 2, 3, 5],
@@ -1252,6 +1271,46 @@ pub fn profile(name: &str, flavor: &'static str) -> Profile {
             max_cost: (40, 60),
             keys: vec![3, 4, 5],
             steps: 110,
+            ..base
+        },
+        "ring" => Profile {
+            name: "ring",
+            clients: 2,
+            sequential: false,
+            steps: 220,
+            keys: vec![0, 3, 4, 5],
+            w: [8, 0, 0, 3, 60, 8, 0, 1, 0, 1, 0, 0],
+            buffer_items: vec![0, 1, 2, 3, 5],
+            p_bump: 0.0,
+            max_cost: (10, 20),
+            ..base
+        },
+        "ring_close" => Profile {
+            name: "ring_close",
+            clients: 2,
+            sequential: false,
+            steps: 120,
+            keys: vec![0, 3],
+            w: [6, 0, 0, 2, 50, 6, 0, 2, 6, 1, 0, 0],
+            buffer_items: vec![1, 2, 3],
+            p_bump: 0.0,
+            max_cost: (10, 20),
+            ..base
+        },
+        "cfg" => Profile {
+            name: "cfg",
+            keys: vec![0, 2, 3, 4, 5, 6],
+            steps: 45,
+            w: [24, 14, 4, 8, 30, 3, 4, 1, 0, 2, 1, 1],
+            p_advance: 0.12,
+            p_tick: 0.4,
+            p_pol: 0.8,
+            ttls: vec![300, 1000, 1500],
+            advances: vec![400, 1000, 1600],
+            buffer_items: vec![0, 1, 2, 64],
+            num_counters: (1..=70).collect(),
+            max_cost: (1, 8),
+            buf_cap: (1, 2),
             ..base
         },
         "below" => Profile {
@@ -1393,6 +1452,36 @@ pub fn profile(name: &str, flavor: &'static str) -> Profile {
     }
 }
 
+/// builder validation: the real finalize() on accepted and rejected parameter combinations
+fn finalize_events(t: &mut Trace, flavor: &str) {
+    for nc in [0usize, 1, 7] {
+        for max in [-5i64, 0, 1] {
+            for buf in [0usize, 1, 2] {
+                let res = if flavor == "sync" {
+                    match CacheBuilder::<u64, u64>::new(nc, max).set_buffer_size(buf).finalize() {
+                        Ok(c) => {
+                            let _ = c.close();
+                            "ok".to_string()
+                        }
+                        Err(e) => format!("{:?}", e),
+                    }
+                } else {
+                    match AsyncCacheBuilder::<u64, u64>::new(nc, max).set_buffer_size(buf).finalize(|f| {
+                        std::thread::spawn(move || futures::executor::block_on(f));
+                    }) {
+                        Ok(c) => {
+                            let _ = bo(c.close());
+                            "ok".to_string()
+                        }
+                        Err(e) => format!("{:?}", e),
+                    }
+                };
+                t.push(json!({"ev":"Finalize","nc":nc,"max":max,"bufsize":buf,"res":res,"flavor":flavor}));
+            }
+        }
+    }
+}
+
 pub fn run(o: &Opts) -> i32 {
     let seed = o.u64("seed", 1);
     let out = o.str("out", "/verif/work/cache.ndjson");
@@ -1410,10 +1499,18 @@ pub fn run(o: &Opts) -> i32 {
     let mut rng = StdRng::seed_from_u64(seed ^ 0xcac4e ^ (prof.len() as u64) << 32);
     let p = profile(&prof, flavor);
     let mut t = Trace::create(&out);
+    if prof == "cfg" {
+        finalize_events(&mut t, flavor);
+    }
     let mut events = 0;
     let mut hung_total = 0;
     let mut stats: HashMap<String, u64> = HashMap::new();
-    for _ in 0..n {
+    for j in 0..n {
+        let mut p = p.clone();
+        if prof == "cfg" {
+            // every num_counters from 1 upward in turn, small and non-power-of-two ones included
+            p.num_counters = vec![j % 70 + 1];
+        }
         let (t2, ev, hung) = random_walk(&mut rng, &p, t);
         t = t2;
         events += ev;
